@@ -581,6 +581,7 @@ class HSWorld:
         mod = self.mod
         if op['op'] == 'start':
             kw = {'cleanup': mod.my_cleanup} if op['c'] == 'K' else {}
+            self.events.append({'ev': 'starting'})
             mod.start_machine(getattr(mod, op['s']), **kw)
             self.events.append({'ev': 'started'})
         elif op['op'] == 'stop':
